@@ -255,6 +255,9 @@ Split split_components(const std::vector<IEdge>& in) {
 
 struct Counters {
   long long selfcheck_every = 0, ncase = 0;
+  // long inputs sorted by tbb::parallel_sort: the order of tied edges may depend on work stealing, so the counters
+  // that depend on the outcome are not recorded for them (the evidence stays identical from run to run)
+  bool outcome_counters = true;
 } g_cnt;
 
 #define CNT(name) (*[] { static long long* p_ = &vf::stats().c[name]; return p_; }())
@@ -338,12 +341,14 @@ std::string check_case(const Case& c, const std::vector<OEdge>& out) {
     canon = o.str();
   }
   if (!structural_ok) return canon;
-  CNT("out.edges_removed") += removed;
-  CNT("out.edges_delayed") += delayed;
-  CNT("out.edges_unchanged") += kept;
-  if (removed) CNT("cases.with_removed_edge") += 1;
-  if (delayed) CNT("cases.with_delayed_edge") += 1;
-  if (removed && delayed) CNT("cases.with_removed_and_delayed") += 1;
+  if (g_cnt.outcome_counters) {
+    CNT("out.edges_removed") += removed;
+    CNT("out.edges_delayed") += delayed;
+    CNT("out.edges_unchanged") += kept;
+    if (removed) CNT("cases.with_removed_edge") += 1;
+    if (delayed) CNT("cases.with_delayed_edge") += 1;
+    if (removed && delayed) CNT("cases.with_removed_and_delayed") += 1;
+  }
   // identical output: the two filtrations are the same object, nothing to compare
   if (!removed && !delayed) { CNT("cases.output_equals_input") += 1; return canon; }
   CNT("ev.nontrivial") += 1;
@@ -585,6 +590,7 @@ int main(int argc, char** argv) {
     // long inputs (> 500 edges: tbb::parallel_sort really runs in parallel, std::sort goes through its introsort
     // partitioning): vertex-disjoint unions of `block` consecutive graphs of the (n, W) enumeration
     int block = (int)a.geti("block", 150);
+    g_cnt.outcome_counters = false;
     unsigned long long total = 1;
     for (size_t i = 0; i < E; ++i) total *= (W.size() + 1);
     unsigned long long nblocks = (total + block - 1) / block;
